@@ -721,6 +721,12 @@ func c14idle(rep *vh.Report, seed uint64, idx int, kind string) {
 				if e.TPost.Sub(lastByte) < T-T/10 {
 					rep.Violation("ep="+kind+" what=closed-while-active", fmt.Sprintf("idle channel closed %v after its last byte (idle timeout %v)", e.TPost.Sub(lastByte), T), nil)
 				}
+				// ... and no later than the configured timeout allows: up to two periods when the silence began inside a frame, plus
+				// 3 s for a loaded machine (a timeout that was silently raised to seconds is far beyond that)
+				if late := e.TPost.Sub(lastByte); late > 2*T+3*time.Second {
+					rep.Violation("ep="+kind+" what=idle-late", fmt.Sprintf("a silent channel was closed only %v after its last byte although the configured idle timeout is %v", late.Round(10*time.Millisecond), T),
+						map[string]interface{}{"heartbeats_enabled": !node.HeartbeatDisable})
+				}
 				var ne net.Error
 				if !errors.As(e.Err, &ne) || !ne.Timeout() {
 					rep.Violation("ep="+kind+" what=no-cause", fmt.Sprintf("idle close carries %v, a timeout error was expected", e.Err), nil)
